@@ -377,16 +377,18 @@ func (c *ctx) probeServerName(sb *strings.Builder) {
 func leanAddr(a addr) string { return fmt.Sprintf("⟨%d, %d, %d⟩", a.loc, a.dom, a.res) }
 
 func (c *ctx) probeHeaderAddress(sb *strings.Builder) {
-	var rows []string
+	var rows, rows2 []string
 	var perr error
 	for _, s2s := range []bool{false, true} {
 		for _, inTLS := range []bool{false, true} {
 			for from := 0; from < len(hdrFromKinds); from++ {
-				tos := headerTos()
+				// (a domain small enough for the kernel to compare in a second, and for a failed
+				// comparison to be explained: the whole universe runs in the differential corpus)
+				tos := []*addr{nil, {1, 0, 0}, {0, 0, 0}, {1, 1, 0}, {2, 0, 0}, {1, 0, 1}, {1, 4, 0}, {0, 1, 0}}
 				if from >= 2 {
-					tos = []*addr{nil, {1, 0, 0}, {0, 0, 0}}
+					tos = []*addr{nil}
 				}
-				for _, to := range tos {
+				for toCode, to := range tos {
 					sc := scenario{domain: 0, remote: 1}
 					if s2s {
 						sc.state0 = uint8(xmpp.S2S)
@@ -413,17 +415,16 @@ func (c *ctx) probeHeaderAddress(sb *strings.Builder) {
 					if res.remoteCh != "" || res.callerCh != "" {
 						perr = fmt.Errorf("addresses changed: %s %s", res.remoteCh, res.callerCh)
 					}
-					toS := "none"
-					if to != nil {
-						toS = "some " + leanAddr(*to)
-					}
-					rows = append(rows, fmt.Sprintf("((%s, %s, %d, %s), some ((%s, %s), %s))", leanBool(s2s), leanBool(inTLS), from, toS, ev, out, leanAddr(la)))
+					rows = append(rows, fmt.Sprintf("((%s, %s, %d, %d), some (%s, %s))", leanBool(s2s), leanBool(inTLS), from, toCode, ev, out))
+					rows2 = append(rows2, fmt.Sprintf("((%s, %s, %d, %d), (%d, %d, %d))", leanBool(s2s), leanBool(inTLS), from, toCode, la.loc, la.dom, la.res))
 				}
 			}
 		}
 	}
-	table(sb, "negotiator.go: (s2s?, header inside TLS?, kind of 'from', 'to') of the peer's stream header ↦ observable trace, outcome and `LocalAddr()` of a `NewSession` with only STARTTLS configured (own address user@d0 / d0, remote d1)",
-		"headerAddressProbe", "List ((Bool × Bool × Nat × Option Addr) × Option ((List Ev × Outcome) × Addr))", rows, perr)
+	table(sb, "negotiator.go: (s2s?, header inside TLS?, kind of 'from', index of the 'to') of the peer's stream header ↦ observable trace and outcome of a `NewSession` with only STARTTLS configured (own address user@d0 / d0, remote d1)",
+		"headerAddressProbe", "List ((Bool × Bool × Nat × Nat) × Option (List Ev × Outcome))", rows, perr)
+	table(sb, "negotiator.go: the same domain ↦ what `LocalAddr()` returns after the call (localpart, domain, resourcepart codes)",
+		"headerLocalProbe", "List ((Bool × Bool × Nat × Nat) × (Nat × Nat × Nat))", rows2, perr)
 }
 
 // ---- stream.Info / jid: a header parsed into a copy leaves the original alone --------------------
